@@ -53,7 +53,9 @@ type Once struct {
 // Do calls f if and only if Do is being called for the first time.
 func (o *Once) Do(f func()) {
 	if o.done {
-		simrt.Atomic(unsafe.Pointer(o))
+		// the fast path is an atomic load of the done flag: it acquires what the
+		// first caller published and publishes nothing itself
+		simrt.AtomicMode(unsafe.Pointer(o), simrt.AtomicAcquire)
 		return
 	}
 	if simrt.OnceEnter(unsafe.Pointer(o)) {
@@ -99,7 +101,7 @@ type Pool struct {
 }
 
 func (p *Pool) Get() any {
-	simrt.Atomic(unsafe.Pointer(p))
+	simrt.AtomicMode(unsafe.Pointer(p), simrt.AtomicAcquire)
 	if n := len(p.items); n > 0 {
 		x := p.items[n-1]
 		p.items = p.items[:n-1]
@@ -112,7 +114,7 @@ func (p *Pool) Get() any {
 }
 
 func (p *Pool) Put(x any) {
-	simrt.Atomic(unsafe.Pointer(p))
+	simrt.AtomicMode(unsafe.Pointer(p), simrt.AtomicReleaseJoin)
 	p.items = append(p.items, x)
 }
 
@@ -143,17 +145,25 @@ type Map struct {
 	_    [1]byte
 }
 
-func (m *Map) pt() {
-	simrt.Atomic(unsafe.Pointer(m))
+func (m *Map) pt() { m.op(simrt.AtomicBoth) }
+
+// op is one sim point on the map: reads acquire what writes published (the
+// edges are kept per map, not per key: never fewer than the real ones).
+func (m *Map) op(mode int) {
+	simrt.AtomicMode(unsafe.Pointer(m), mode)
 	if m.vals == nil {
 		m.vals = map[any]any{}
 	}
 }
 
-func (m *Map) Load(key any) (any, bool) { m.pt(); v, ok := m.vals[key]; return v, ok }
+func (m *Map) Load(key any) (any, bool) {
+	m.op(simrt.AtomicAcquire)
+	v, ok := m.vals[key]
+	return v, ok
+}
 
 func (m *Map) Store(key, value any) {
-	m.pt()
+	m.op(simrt.AtomicReleaseJoin)
 	if _, ok := m.vals[key]; !ok {
 		m.keys = append(m.keys, key)
 	}
@@ -189,7 +199,7 @@ func (m *Map) LoadAndDelete(key any) (any, bool) {
 	return v, ok
 }
 
-func (m *Map) Delete(key any) { m.pt(); m.del(key) }
+func (m *Map) Delete(key any) { m.op(simrt.AtomicReleaseJoin); m.del(key) }
 
 func (m *Map) Swap(key, value any) (any, bool) {
 	m.pt()
@@ -220,7 +230,7 @@ func (m *Map) CompareAndDelete(key, old any) bool {
 }
 
 func (m *Map) Range(f func(key, value any) bool) {
-	m.pt()
+	m.op(simrt.AtomicAcquire)
 	keys := append([]any(nil), m.keys...)
 	for _, k := range keys {
 		v, ok := m.vals[k]
@@ -233,4 +243,4 @@ func (m *Map) Range(f func(key, value any) bool) {
 	}
 }
 
-func (m *Map) Clear() { m.pt(); m.keys, m.vals = nil, map[any]any{} }
+func (m *Map) Clear() { m.op(simrt.AtomicReleaseJoin); m.keys, m.vals = nil, map[any]any{} }
